@@ -1,3 +1,5 @@
+import Plotink.Proofs.C13Gen
+import Plotink.Proofs.C13GenInit
 import Plotink.Model.C13
 import Plotink.Proofs.C13Near
 import Plotink.Proofs.C13Geo
@@ -313,5 +315,137 @@ example : (0 : Nat) < 4 ∧
     (∃ a ∈ points [((0, 0), (1, 1)), ((1, 0), (0, 1))] true, ∃ b ∈ points [((0, 0), (1, 1)), ((1, 0), (0, 1))] true, a ≠ b) ∧
     [1, 0].Nodup ∧ ∀ p ∈ [1, 0], p < [((0, 0), (1, 1)), ((1, 0), (0, 1))].length := by
   refine ⟨by omega, ⟨(0, 0), by simp [points], (1, 1), by simp [points], by simp⟩, by simp, by simp⟩
+
+/-! ## The same statements about the SOURCE-REGENERATED methods
+
+`Gen.grid_Index_init` / `_find_adjacents` / `_nearest` / `_remove_path` are regenerated from `plotink/spatial_grid.py` on
+every run (`lean/Plotink/Gen/grid_Index.lean`).  Exact arithmetic (`Rounding.exact`); an `Index` instance in state `g` is
+the field tuple `C13.encGrid g`, a query point `C13.encPt q`, the vertex list `C13.encPaths verts`; `nearest` returns `None`
+(`.none_`) or an identifier (`.int r`).  The per-method statements are for every state that satisfies the invariant
+`Inv g live` — which the regenerated `__init__` establishes (`C13_gen_build` with `C13_inv_build`) and the regenerated
+`remove_path` preserves (`C13_gen_remove`); `C13_gen_history` is the property end to end about the regenerated class alone.
+Proofs: `Proofs/C13Gen.lean`, `Proofs/C13GenInit.lean`. -/
+
+/-- **bridge** (`find_adjacents`): on an instance with `bins_per_side = bins` it returns `None` and sets `self.adjacents` to
+the model's table (whose content is `C13_adjacents_spec`); no other field changes -/
+theorem C13_gen_find_adjacents (amb : Nat) (f1 f3 f4 f5 f6 f7 f8 f9 f10 : Py.Val) (bins : Nat) (A : List (List Nat)) :
+    Gen.grid_Index_find_adjacents Rounding.exact amb (instA f1 A f3 f4 f5 f6 f7 f8 f9 f10 bins) =
+      .tup [.none_, instA f1 (adjacents bins) f3 f4 f5 f6 f7 f8 f9 f10 bins] :=
+  find_adjacents_bridge f1 f3 f4 f5 f6 f7 f8 f9 f10 bins amb A
+
+/-- **bridge** (`__init__`): whenever the model's construction succeeds (`C13_build_total`: `bins ≥ 1` and non-zero extent),
+the regenerated constructor returns exactly that state — grid, adjacents, lookup, path_count, vertices, reverse, bin
+sizes, xmin, ymin, bins_per_side -/
+theorem C13_gen_build (amb : Nat) {verts : List Path} {bins : Nat} {rev : Bool} {g : Grid}
+    (h : build verts bins rev = some g) :
+    Gen.grid_Index_init Rounding.exact amb (encPaths verts) (.int (bins : Int)) (.bool_ rev) = encGrid g :=
+  init_bridge amb verts bins rev g h
+
+/-- the regenerated constructor establishes the invariant -/
+theorem C13_gen_inv_build (amb : Nat) {verts : List Path} {bins : Nat} {rev : Bool} (hb : 0 < bins)
+    (hext : ∃ a ∈ points verts rev, ∃ b ∈ points verts rev, a ≠ b) :
+    ∃ g, Gen.grid_Index_init Rounding.exact amb (encPaths verts) (.int (bins : Int)) (.bool_ rev) = encGrid g ∧
+      Inv g (List.range verts.length) ∧ g.verts = verts ∧ g.rev = rev ∧ g.n = verts.length ∧ g.bins = bins := by
+  obtain ⟨g, hg⟩ := C13_build_total (rev := rev) hb hext
+  exact ⟨g, init_bridge amb verts bins rev g hg, C13_inv_build hg⟩
+
+/-- **bridge** (`nearest`) -/
+theorem C13_gen_nearest (amb : Nat) {g : Grid} {live : List Nat} (h : Inv g live) (q : Pt) :
+    Gen.grid_Index_nearest Rounding.exact amb (encGrid g) (encPt q) = encOptNat (nearest g q) :=
+  nearest_bridge amb g live h q
+
+/-- **bridge** (`remove_path`) for a path that is still present: returns `None` and the updated instance, whose state
+again satisfies the invariant -/
+theorem C13_gen_remove (amb : Nat) {g : Grid} {live : List Nat} (h : Inv g live) {p : Nat} (hp : p ∈ live) :
+    ∃ g', Gen.grid_Index_remove_path Rounding.exact amb (encGrid g) (encNat p) = .tup [.none_, encGrid g'] ∧
+      Inv g' (live.filter (· ≠ p)) ∧ g'.toGeo = g.toGeo ∧ g'.rev = g.rev ∧ g'.n = g.n ∧ g'.verts = g.verts := by
+  obtain ⟨g', hr, hi, rest⟩ := C13_inv_remove h hp
+  exact ⟨g', remove_bridge amb g g' p hr, hi, rest⟩
+
+/-- every sequence of removals of distinct present paths, threaded through the regenerated method -/
+theorem C13_gen_inv_history (amb : Nat) {g : Grid} {live : List Nat} (h : Inv g live) (ps : List Nat) (hnd : ps.Nodup)
+    (hsub : ∀ p ∈ ps, p ∈ live) :
+    ∃ g', genRemoveAll amb (encGrid g) ps = encGrid g' ∧ Inv g' (live.filter (fun k => k ∉ ps)) ∧
+      g'.toGeo = g.toGeo ∧ g'.rev = g.rev ∧ g'.n = g.n ∧ g'.verts = g.verts := by
+  obtain ⟨g', hr, hi, rest⟩ := C13_inv_history h ps hnd hsub
+  exact ⟨g', removeAll_bridge amb ps g g' hr, hi, rest⟩
+
+/-- `C13_none_iff`: the regenerated `nearest` returns `None` exactly when no path remains -/
+theorem C13_gen_none_iff (amb : Nat) {g : Grid} {live : List Nat} (h : Inv g live) (q : Pt) :
+    Gen.grid_Index_nearest Rounding.exact amb (encGrid g) (encPt q) = .none_ ↔ live = [] := by
+  rw [C13_gen_nearest amb h q, encOptNat_eq_none, C13_none_iff h q]
+
+/-- `C13_live`: an identifier it returns names an end of a path that has not been removed -/
+theorem C13_gen_live (amb : Nat) {g : Grid} {live : List Nat} (h : Inv g live) (q : Pt) {r : Nat}
+    (hr : Gen.grid_Index_nearest Rounding.exact amb (encGrid g) (encPt q) = .int (r : Int)) :
+    (∃ p, LiveEnd g.verts g.rev live r p) ∧
+    ((r < g.n ∧ r ∈ live) ∨ (g.rev = true ∧ g.n ≤ r ∧ r < 2 * g.n ∧ r - g.n ∈ live)) := by
+  rw [C13_gen_nearest amb h q] at hr
+  exact C13_live h q (encOptNat_eq_int hr)
+
+/-- `C13_local`: no live end in the query's cell or one of its eight neighbours is strictly closer -/
+theorem C13_gen_local (amb : Nat) {g : Grid} {live : List Nat} (h : Inv g live) (q : Pt) {r : Nat} {pr : Pt}
+    (hr : Gen.grid_Index_nearest Rounding.exact amb (encGrid g) (encPt q) = .int (r : Int))
+    (hpr : endPoint g.verts g.rev r = some pr) {id : Nat} {p : Pt} (hp : LiveEnd g.verts g.rev live id p)
+    (hnear : Near (cellOf g.toGeo q) (cellOf g.toGeo p)) : sqDist q pr ≤ sqDist q p := by
+  rw [C13_gen_nearest amb h q] at hr
+  exact C13_local h q (encOptNat_eq_int hr) hpr hp hnear
+
+/-- `C13_global_when_empty`: when no live end lies in those cells the result is a globally closest live end -/
+theorem C13_gen_global_when_empty (amb : Nat) {g : Grid} {live : List Nat} (h : Inv g live) (q : Pt) {r : Nat} {pr : Pt}
+    (hr : Gen.grid_Index_nearest Rounding.exact amb (encGrid g) (encPt q) = .int (r : Int))
+    (hpr : endPoint g.verts g.rev r = some pr)
+    (hempty : ∀ id p, LiveEnd g.verts g.rev live id p → ¬ Near (cellOf g.toGeo q) (cellOf g.toGeo p))
+    {id : Nat} {p : Pt} (hp : LiveEnd g.verts g.rev live id p) : sqDist q pr ≤ sqDist q p := by
+  rw [C13_gen_nearest amb h q] at hr
+  exact C13_global_when_empty h q (encOptNat_eq_int hr) hpr hempty hp
+
+/-- `C13_true_nearest`: when some live end is within one cell width of the query, the result is a globally closest one -/
+theorem C13_gen_true_nearest (amb : Nat) {g : Grid} {live : List Nat} (h : Inv g live) (q : Pt) {r : Nat} {pr : Pt}
+    (hr : Gen.grid_Index_nearest Rounding.exact amb (encGrid g) (encPt q) = .int (r : Int))
+    (hpr : endPoint g.verts g.rev r = some pr)
+    (hclose : ∃ id p, LiveEnd g.verts g.rev live id p ∧ sqDist q p ≤ min g.bx g.by_ * min g.bx g.by_)
+    {id : Nat} {p : Pt} (hp : LiveEnd g.verts g.rev live id p) : sqDist q pr ≤ sqDist q p := by
+  rw [C13_gen_nearest amb h q] at hr
+  exact C13_true_nearest h q (encOptNat_eq_int hr) hpr hclose hp
+
+/-- **the property end to end, about the regenerated class alone**: construct with the regenerated `__init__`, remove the
+distinct paths `ps` with the regenerated `remove_path`; every answer of the regenerated `nearest` on the resulting
+instance satisfies the five clauses of the property, stated about the original vertex list -/
+theorem C13_gen_history (amb : Nat) {verts : List Path} {bins : Nat} {rev : Bool} (hb : 0 < bins)
+    (hext : ∃ a ∈ points verts rev, ∃ b ∈ points verts rev, a ≠ b)
+    (ps : List Nat) (hnd : ps.Nodup) (hlt : ∀ p ∈ ps, p < verts.length) :
+    ∃ g, genRemoveAll amb (Gen.grid_Index_init Rounding.exact amb (encPaths verts) (.int (bins : Int)) (.bool_ rev)) ps = encGrid g ∧
+      g.bins = bins ∧
+      ∀ live, live = (List.range verts.length).filter (fun k => k ∉ ps) → ∀ q : Pt,
+        (Gen.grid_Index_nearest Rounding.exact amb (encGrid g) (encPt q) = .none_ ↔ live = []) ∧
+        ∀ r : Nat, Gen.grid_Index_nearest Rounding.exact amb (encGrid g) (encPt q) = .int (r : Int) →
+          ∃ pr, LiveEnd verts rev live r pr ∧
+            ∀ id p, LiveEnd verts rev live id p →
+              (Near (cellOf g.toGeo q) (cellOf g.toGeo p) → sqDist q pr ≤ sqDist q p) ∧
+              ((∀ id' p', LiveEnd verts rev live id' p' → ¬ Near (cellOf g.toGeo q) (cellOf g.toGeo p')) →
+                sqDist q pr ≤ sqDist q p) ∧
+              ((∃ id' p', LiveEnd verts rev live id' p' ∧ sqDist q p' ≤ min g.bx g.by_ * min g.bx g.by_) →
+                sqDist q pr ≤ sqDist q p) := by
+  obtain ⟨g0, g, hg0, hg, _, hbins, hall⟩ := C13_history (rev := rev) hb hext ps hnd hlt
+  obtain ⟨hinv0, _⟩ := C13_inv_build hg0
+  obtain ⟨g', hg', hinv, _⟩ := C13_inv_history hinv0 ps hnd (fun p hp => List.mem_range.mpr (hlt p hp))
+  have hgg : g' = g := Option.some.inj (hg'.symm.trans hg)
+  subst hgg
+  refine ⟨g', ?_, hbins, ?_⟩
+  · rw [init_bridge amb verts bins rev g0 hg0]; exact removeAll_bridge amb ps g0 g' hg
+  · intro live hlive q
+    obtain ⟨h1, h2⟩ := hall live hlive q
+    subst hlive
+    rw [C13_gen_nearest amb hinv q]
+    exact ⟨by rw [encOptNat_eq_none]; exact h1, fun r hr => h2 r (encOptNat_eq_int hr)⟩
+
+/-- non-vacuity: a consistent index state with a live path exists (so the regenerated `nearest` returns an identifier) -/
+example (amb : Nat) : ∃ (g : Grid) (live : List Nat) (q : Pt) (r : Nat), Inv g live ∧
+    Gen.grid_Index_nearest Rounding.exact amb (encGrid g) (encPt q) = .int (r : Int) := by
+  obtain ⟨g, live, q, h, hne, _⟩ := witness_far
+  cases hn : nearest g q with
+  | none => exact absurd ((C13_none_iff h q).mp hn) hne
+  | some r => exact ⟨g, live, q, r, h, by rw [C13_gen_nearest amb h q, hn]; rfl⟩
 
 end Plotink
